@@ -13,6 +13,7 @@ package props
 
 import (
 	"encoding/json"
+	"errors"
 	"fmt"
 	"testing"
 
@@ -282,17 +283,32 @@ func modelVerdicts(schema *jv.V, insts []*jv.V, variant int) ([]bool, error) {
 		if err != nil {
 			return nil, err
 		}
+		if m.NaiveCost > modelCostSeen {
+			modelCostSeen = m.NaiveCost
+		}
 		out[i] = v
 	}
 	return out, nil
 }
+
+// modelCostSeen: the largest number of subschema evaluations a memo-less evaluator needs for one
+// instance, over the modelVerdicts calls since it was last reset.
+var modelCostSeen float64
 
 func checkC07(c *c07Case, rec *ev.Recorder) *failure {
 	insts := c07Instances(c.Mode)
 	if c.Long && c.Mode == "array" {
 		insts = append(insts, c07LongArrays()...)
 	}
+	modelCostSeen = 0
 	want, err := modelVerdicts(c.Schema, insts, refmodel.VariantSpec)
+	if errors.Is(err, refmodel.ErrBudget) || modelCostSeen > 2e6 {
+		// exponentially many in-place paths: left out (see C01)
+		if rec != nil {
+			rec.Class("discard:exponentially-many-in-place-paths")
+		}
+		return nil
+	}
 	if err != nil {
 		return failf("HARNESS: model: %v\n%s", err, c.Schema.JSON())
 	}
